@@ -105,6 +105,8 @@ def gen_cases(ctx):
             case["strain"] = 2.0
         if rng.random() < 0.1:
             case["params"]["nucleation_efficiency"] = 50.0
+        if regime != 1 and rng.random() < 0.12:
+            case["regime2"] = int(rng.choice([0, 7, 4, 6]))   # regime switch half-way (through get_regime)
         case["kind"] = "history"
         yield case
     for i in range(ctx.share(ctx.scale(12, 200))):
@@ -123,7 +125,9 @@ def check_case(ctx, case):
     H = drive.History(pydrex, case)
     m = H.mineral()
     regime = H.regime
-    ctx.cls(f"regime={regime}")
+    ctx.cls(f"regime={regime}" + (f"->{case['regime2']}" if case.get("regime2") is not None else ""))
+    ctx.cls(f"regime_via={H.regime_via}")
+    ctx.cls("t0=0" if case.get("t0", 0) == 0 else "t0=large" if abs(case.get("t0", 0)) >= 1e4 else "t0=small")
     ctx.cls(f"combo={case['combo']}")
     ctx.cls(f"L={case['L']['kind']}/{case['L']['mode']}")
     ctx.cls(f"tex={case['tex']}")
